@@ -29,7 +29,7 @@ def IsOp (op : Bytes) : Prop :=
 /-- one of the five operators; a number without NUL and ')' and without leading or
     trailing white space (it may be empty and may contain inner white space) -/
 def VerOk (v : VersionRelation) : Prop :=
-  IsOp v.op ∧ (∀ c ∈ v.number, numStop c = false) ∧ eatWs v.number = v.number ∧
+  IsOp v.op ∧ (∀ c ∈ v.number, numStop c = false) ∧ isWs (peek v.number) = false ∧
     v.number.reverse.dropWhile isWs = v.number.reverse
 
 /-- `!` or a non-empty name (or both); the name has no NUL, '!', '>' or white space -/
@@ -261,7 +261,7 @@ theorem parseNumber_err {inp : Bytes} {e : Err} (h : parseNumber inp = .error e)
 
 theorem parseNumber_ok {inp num rest : Bytes} (h : parseNumber inp = .ok (num, rest)) :
     (∃ r, rest = 41 :: r) ∧ rest.length ≤ inp.length ∧ (∀ c ∈ num, numStop c = false) ∧
-      eatWs num = num ∧ num.reverse.dropWhile isWs = num.reverse := by
+      isWs (peek num) = false ∧ num.reverse.dropWhile isWs = num.reverse := by
   unfold parseNumber at h
   simp only at h
   split at h
@@ -280,7 +280,7 @@ theorem parseNumber_ok {inp num rest : Bytes} (h : parseNumber inp = .ok (num, r
       | cons c n =>
         have h1 := takeUntil_append_eq numStop (eatWs inp)
         rw [ht] at h1
-        exact eatWs_of_head (eatWs_head h1.symm)
+        exact eatWs_head h1.symm
     · rw [List.reverse_reverse]
       exact eatWs_idem _
   · cases h
